@@ -64,6 +64,16 @@ type Event struct {
 	St     int      `json:"st,omitempty"`
 	New    bool     `json:"new,omitempty"`
 	D      int      `json:"d,omitempty"`
+	Flows  []FlowCfg `json:"flows,omitempty"` // flows mode with several flows, each holding a Retry processor
+	U      string    `json:"u,omitempty"`     // ... path of the call ("orders", "other", ...): decides which flows are selected
+}
+
+// FlowCfg is one user flow  Filter(status) -hit-> Retry(key)  with its own URL filter.
+type FlowCfg struct {
+	Name string `json:"name"`
+	URL  string `json:"url"`
+	Key  string `json:"key"`
+	A    int    `json:"A"`
 }
 
 type Script struct {
@@ -165,24 +175,24 @@ func (p *policyRun) finish() { p.adv(1_000_000) }
 
 // ----------------------------------------------------------------- flows mode
 
-const flowTmpl = `name: RetryFlow
+const flowTmpl = `name: %[6]s
 filter:
-  url: "api.test/*"
+  url: "%[7]s"
 processors:
   StatusFilter:
     processor: Filter
     parameters:
       - key: status_code_range
-        value: "%d-%d"
-  RetryProc:
+        value: "%[1]d-%[2]d"
+  %[8]s:
     processor: Retry
     parameters:
       - key: attempts
-        value: %d
+        value: %[3]d
       - key: cooldown_between_attempts_seconds
-        value: %d
+        value: %[4]d
       - key: cooldown_multiplier
-        value: %d.0
+        value: %[5]d.0
 flow:
   request:
     - from:
@@ -207,7 +217,7 @@ flow:
           condition: hit
       to:
         processor:
-          name: RetryProc
+          name: %[8]s
     - from:
         processor:
           name: StatusFilter
@@ -218,7 +228,7 @@ flow:
           at: end
     - from:
         processor:
-          name: RetryProc
+          name: %[8]s
           condition: retry
       to:
         stream:
@@ -226,7 +236,7 @@ flow:
           at: end
     - from:
         processor:
-          name: RetryProc
+          name: %[8]s
           condition: failed
       to:
         stream:
@@ -243,6 +253,10 @@ type flowsRun struct {
 
 	mu   sync.Mutex
 	seen []string // outputs of RetryProc during the current transaction
+
+	multi bool        // several flows: every processor execution of the current transaction (flow, key, output)
+	flows []FlowCfg
+	execs [][3]string
 }
 
 var engineDirSeq int
@@ -278,7 +292,11 @@ func sink(point string, kv ...any) {
 		for i := 0; i+1 < len(kv); i += 2 {
 			m[fmt.Sprint(kv[i])] = kv[i+1]
 		}
-		if m["key"] == "RetryProc" {
+		if f.multi {
+			f.mu.Lock()
+			f.execs = append(f.execs, [3]string{fmt.Sprint(m["flow"]), fmt.Sprint(m["key"]), fmt.Sprint(m["out"])})
+			f.mu.Unlock()
+		} else if m["key"] == "RetryProc" {
 			f.mu.Lock()
 			f.seen = append(f.seen, fmt.Sprint(m["out"]))
 			f.mu.Unlock()
@@ -304,7 +322,7 @@ func newFlows(e Event, root string) (*flowsRun, error) {
 			return nil, err
 		}
 	}
-	y := fmt.Sprintf(flowTmpl, e.Ranges[0][0], e.Ranges[0][1], e.A, e.Cd, e.Mult)
+	y := fmt.Sprintf(flowTmpl, e.Ranges[0][0], e.Ranges[0][1], e.A, e.Cd, e.Mult, "RetryFlow", "api.test/*", "RetryProc")
 	if err := os.WriteFile(filepath.Join(dir, "flows", "retry.yaml"), []byte(y), 0o644); err != nil {
 		return nil, err
 	}
@@ -389,6 +407,114 @@ wait:
 	return out
 }
 
+// newMulti builds (once per configuration and script) an engine with several user flows, each
+// Filter(status) -hit-> Retry; which of them a call selects depends on its URL.
+func newMulti(e Event, root string) (*flowsRun, error) {
+	if len(e.Ranges) != 1 {
+		return nil, fmt.Errorf("flows mode takes exactly one status range")
+	}
+	historySeq++
+	key := fmt.Sprintf("multi/%v/%d-%d", e.Flows, e.Ranges[0][0], e.Ranges[0][1])
+	if f, ok := engines[key]; ok {
+		f.prefix = fmt.Sprintf("h%d.", historySeq)
+		current = f
+		return f, nil
+	}
+	engineDirSeq++
+	dir := filepath.Join(root, fmt.Sprintf("eng-%d", engineDirSeq))
+	for _, d := range []string{"flows", "quotas"} {
+		if err := os.MkdirAll(filepath.Join(dir, d), 0o755); err != nil {
+			return nil, err
+		}
+	}
+	for _, fc := range e.Flows {
+		y := fmt.Sprintf(flowTmpl, e.Ranges[0][0], e.Ranges[0][1], fc.A, 0, 0, fc.Name, fc.URL, fc.Key)
+		if err := os.WriteFile(filepath.Join(dir, "flows", fc.Name+".yaml"), []byte(y), 0o644); err != nil {
+			return nil, err
+		}
+	}
+	contextmanager.Get().SetMockClock()
+	eng, err := streams.NewValidationStream(dir)
+	if err != nil {
+		return nil, err
+	}
+	if err := eng.Initialize(); err != nil {
+		return nil, err
+	}
+	os.RemoveAll(dir)
+	f := &flowsRun{eng: eng, clock: contextmanager.Get().GetMockClock(), prefix: fmt.Sprintf("h%d.", historySeq),
+		multi: true, flows: e.Flows}
+	engines[key] = f
+	current = f
+	return f, nil
+}
+
+// respMulti: one response through every selected flow; one recorded event per flow whose Filter ran, keyed
+// "<flow>/<sequence>": retry = that flow's Retry processor answered retry (and the transaction carries as many
+// RetryRequestActions as processors answered retry), failed, none = its Retry processor was not reached.
+func (f *flowsRun) respMulti(e Event) []vh.Ev {
+	f.txn++
+	seq := f.prefix + e.S
+	id := fmt.Sprintf("%s-t%d", seq, f.txn)
+	if e.New {
+		id = seq
+	}
+	f.mu.Lock()
+	f.execs = nil
+	f.mu.Unlock()
+	api := streamtypes.NewResponseAPIStream(lunarMessages.OnResponse{
+		ID: id, SequenceID: seq, Method: "GET", URL: "api.test/" + e.U, Status: e.St, Headers: map[string]string{},
+	}, lunarcontext.NewMemoryState[[]byte]())
+	acts := &streamconfig.StreamActions{Request: &streamconfig.RequestStream{}, Response: &streamconfig.ResponseStream{}}
+	err := f.eng.ExecuteFlow(api, acts)
+	f.mu.Lock()
+	execs := append([][3]string(nil), f.execs...)
+	f.mu.Unlock()
+	nRetryAct := 0
+	for _, a := range acts.Response.Actions {
+		if _, ok := a.(*actions.RetryRequestAction); ok {
+			nRetryAct++
+		}
+	}
+	var evs []vh.Ev
+	nRetryProc := 0
+	for _, fc := range f.flows {
+		selected, outs := false, []string{}
+		for _, x := range execs {
+			if x[0] != fc.Name {
+				continue
+			}
+			if x[1] == "StatusFilter" {
+				selected = true
+			} else if x[1] == fc.Key {
+				outs = append(outs, x[2])
+			}
+		}
+		if !selected {
+			continue
+		}
+		out := vh.Ev{"ev": "resp", "s": fc.Name + "/" + e.S, "st": e.St, "new": e.New, "u": e.U}
+		switch {
+		case err != nil:
+			out["out"] = "error:" + err.Error()
+		case len(outs) == 0:
+			out["out"] = "none"
+		case len(outs) == 1 && (outs[0] == "retry" || outs[0] == "failed"):
+			out["out"] = outs[0]
+			if outs[0] == "retry" {
+				nRetryProc++
+			}
+		default:
+			out["out"] = "other:proc=" + strings.Join(outs, "+")
+		}
+		evs = append(evs, out)
+	}
+	if nRetryAct != nRetryProc && len(evs) > 0 {
+		evs[0]["out"] = fmt.Sprintf("other:actions=%d,retrying-processors=%d", nRetryAct, nRetryProc)
+	}
+	return evs
+}
+
 func (f *flowsRun) adv(d int) {
 	f.clock.AdvanceTime(time.Duration(d) * time.Second)
 }
@@ -423,13 +549,30 @@ func main() {
 						pol.finish()
 					}
 					pol, fl = nil, nil
-					rec := vh.Ev{"ev": "reset", "mode": e.Mode, "A": e.A, "cd": e.Cd, "mult": e.Mult, "ranges": e.Ranges, "seqs": e.Seqs}
+					atts := make([]int, len(e.Seqs))
+					for i := range atts {
+						atts[i] = e.A
+					}
+					rec := vh.Ev{"ev": "reset", "mode": e.Mode, "A": e.A, "cd": e.Cd, "mult": e.Mult, "ranges": e.Ranges, "seqs": e.Seqs, "atts": atts}
+					if e.Mode == "flows" && len(e.Flows) > 0 {
+						keys, katts := []string{}, []int{}
+						for _, fc := range e.Flows {
+							for _, sq := range e.Seqs {
+								keys, katts = append(keys, fc.Name+"/"+sq), append(katts, fc.A)
+							}
+						}
+						rec["seqs"], rec["atts"], rec["flows"] = keys, katts, e.Flows
+					}
 					switch e.Mode {
 					case "policy":
 						pol = newPolicy(e)
 					case "flows":
 						var err error
-						fl, err = newFlows(e, os.Args[3])
+						if len(e.Flows) > 0 {
+							fl, err = newMulti(e, os.Args[3])
+						} else {
+							fl, err = newFlows(e, os.Args[3])
+						}
 						if err != nil {
 							// the configuration is refused by the loader: recorded, the history has no further events
 							rec["refused"] = err.Error()
@@ -441,6 +584,10 @@ func main() {
 				case "resp":
 					if pol != nil {
 						tr.Add(pol.resp(e))
+					} else if fl != nil && fl.multi {
+						for _, ev := range fl.respMulti(e) {
+							tr.Add(ev)
+						}
 					} else if fl != nil {
 						tr.Add(fl.resp(e))
 					}
